@@ -197,20 +197,22 @@ def saem_tie(run, n, only=None):
         steps = res[1]
         run.count("saem-tie-outcome", "nan" if any(bool(s["var"].isnan().any()) for s in steps) else "finite")
         cases.append(_coq_case(diagonal, values, mask, models, coeffs, steps))
-        meta.append((inp, rule, mask, its, steps))
+        meta.append((inp, rule, mask, its, steps, _own_variances(values, mask, models, coeffs, diagonal)))
     if only is None and meta:
-        inp, rule, mask, its, steps = meta[0]
+        inp, rule, mask, its, steps, _ = meta[0]
         run.sample(dict(kind="saem-step-tie", case=inp, rule=rule, on_code=[dict(iteration=it, y_x_model_weight=None if s["weight"] is None else
                         [int(x) for x in s["weight"].reshape(-1).tolist()], variance=jsonable(s["var"].reshape(-1).tolist())) for it, s in zip(its, steps)]))
     bad = run.vm_bad_indices("saem", SAEM_HDR, SAEM_TYPE, cases, "check_saem_case")
     for b in bad or []:
-        inp, rule, mask, its, steps = meta[b]
+        inp, rule, mask, its, steps, own = meta[b]
         lost = [it for it, s in zip(its, steps) if s["weight"] is None or s["weight"].shape != mask.shape
                 or not bool((s["weight"].double() == mask).all())]
         observed = [dict(iteration=it, y_x_model=("WeightedTensor" if s["weighted"] else "Tensor"), has_weights=s["weight"] is not None,
                          variance=jsonable(s["var"].reshape(-1).tolist())) for it, s in zip(its, steps)]
+        leak = [it for it, s, o in zip(its, steps, own) if s["var"].shape != o.shape or not bool(torch.isclose(s["var"], o, rtol=1e-12, atol=0.0, equal_nan=True).all())]
         if lost:
-            run.fail(LOST, f"after _maximization_step at iteration(s) {lost} (n_burn_in_iter {N_BURN_IN}) the stored y_x_model no longer carries the "
+            run.fail(LOST + (":noise-not-from-observed-entries-only" if leak else ""), (f"the variance handed to compute_std_from_variance at iteration(s) {leak} is not "
+                     "(sum_obs y^2 + sum_obs(-2 avg(y*model) + avg(model^2))) / n_obs over observed entries; " if leak else "") + f"after _maximization_step at iteration(s) {lost} (n_burn_in_iter {N_BURN_IN}) the stored y_x_model no longer carries the "
                      f"weights of y ({rule} noise): the update rule masks model_x_model only through these weights, so model^2 at entries missing on an "
                      "observed visit enters the residual sum while n_obs counts observed entries only",
                      dict(inp, rule=rule), expected="weights of y on the averaged y_x_model (C06_saem_statistics_carry_weights), variance of "
@@ -221,6 +223,20 @@ def saem_tie(run, n, only=None):
                      expected=f"saem_stats / noise_var_{rule}_saem of Masked/Saem.v", observed=observed)
     run.extra["saem_tie_cases"] = len(cases)
     return bad
+
+
+def _own_variances(values, mask, models, coeffs, diagonal):
+    """float64, from scratch: the variance after each step when y * model and model^2 are averaged over OBSERVED entries only"""
+    obs = mask.bool()
+    dims = (0, 1) if diagonal else (0, 1, 2)
+    y0 = values.masked_fill(~obs, 0.0)
+    out, avg = [], None
+    for k, m in enumerate(models):
+        m = m.masked_fill(~obs, 0.0)
+        cur = (y0 * m, m ** 2)
+        avg = cur if k == 0 else tuple(a * coeffs[k - 1][0] + coeffs[k - 1][1] * c for a, c in zip(avg, cur))
+        out.append(((y0 ** 2).sum(dim=dims) + (-2 * avg[0] + avg[1]).sum(dim=dims)) / obs.sum(dim=dims).double())
+    return out
 
 
 # ----------------------------------------------------------------------------- real fits running past burn-in
